@@ -178,6 +178,16 @@ def judge(c, r):
         out.append(("tool", None, "state plan %s: forged kernel not found in the realised state" % c["id"]))
     if c["cls"] == "proof_swapped" and [f["unspent"] for f in r["forged_outputs"]] != [True]:
         out.append(("tool", None, "state plan %s: forged output not unspent in the realised state" % c["id"]))
+    # the pipe route: the corrupted block was offered to Chain::process_block under every option set
+    for p, pr in zip(c.get("pipe") or [], r.get("pipe") or []):
+        if pr["res"] == "ok" and not p["accept"]:
+            out.append(("violation", "txbal:pipeline:unbalanced_block_accepted:cls=%s:slot=%s:opts=%s" % (c["cls"], c.get("slot"), p["opt"]),
+                        "Chain::process_block(%s | SKIP_POW) accepted block %s of the history although it does not balance (%s at %s)%s" % (
+                            p["opt"], p["h"], c["cls"], c.get("slot"), "; it became the head" if pr.get("became_head") else "")))
+        elif pr["res"] == "panic":
+            out.append(("violation", "txbal:pipeline:panic:cls=%s:opts=%s" % (c["cls"], p["opt"]), "Chain::process_block panicked on an unbalanced block"))
+    if (c.get("pipe") or []) and len(r.get("pipe") or []) != len(c["pipe"]):
+        out.append(("tool", None, "state plan %s: the corrupted block was not offered to the pipeline" % c["id"]))
     if r["full"] == "ok" and not exp["full"]:
         out.append(("violation", signature(c, r), "Chain::validate(false) accepted a state the rules refuse at '%s' (%s, block %s; %s kernels, %s unspent outputs, forged kernel index %s, forged outputs %s)" % (
             exp["rule"], c["cls"], c.get("h", "-"), r["n_kernels"], r["n_unspent"], r["forged_kernel_idx"], r["forged_outputs"])))
@@ -221,6 +231,9 @@ def coverage(cases, res, tier):
                     proof_pairs.add((r["n_outputs"], f["idx"]))
             if c["sect"] == "large":
                 walk["%s:n=%d:idx=%d" % (c["items"], c["n"], c["idx"])] += 1
+            for p, pr in zip(c.get("pipe") or [], r.get("pipe") or []):
+                by["pipeline_%s_unbalanced_%s" % (p["opt"], "refused" if pr["res"] == "err" else pr["res"])] += 1
+                by["pipeline_unbalanced_refused:cls=%s" % c["cls"]] += pr["res"] == "err"
             if r["full"] != "ok" and not c["expect"]["full"]:
                 by["state_forged_refused"] += 1
             if r["full"] == "ok" and c["expect"]["full"]:
@@ -234,7 +247,10 @@ def coverage(cases, res, tier):
     if not need <= proof_pairs:
         raise ToolError("full-state section: swapped-proof (outputs, idx) pairs never realised: %s" % sorted(need - proof_pairs)[:10])
     for k in ("batch_sig_batch", "batch_proof_batch", "batch_sig_tx", "batch_proof_tx", "state_base", "large_kernel_minting",
-              "large_base", "batch_forged_refused", "batch_honest_accepted", "state_forged_refused", "state_honest_accepted"):
+              "large_base", "batch_forged_refused", "batch_honest_accepted", "state_forged_refused", "state_honest_accepted",
+              "pipeline_NONE_unbalanced_refused", "pipeline_SYNC_unbalanced_refused", "pipeline_MINE_unbalanced_refused") + tuple(
+                  "pipeline_unbalanced_refused:cls=" + k for k in ("kernel_minting", "kernel_sig_swapped", "proof_swapped", "excess_replaced",
+                                                                   "amount_inflated", "offset_shifted")):
         if by[k] == 0:
             raise ToolError("batch / full-state section vacuous: %s = 0" % k)
     for b in (1024, 5000):
